@@ -172,10 +172,12 @@ type plan struct {
 	hold     int      // bounded spin (in yields) of the builder before the status store
 	center   s2.Point
 	scale    float64
+	containsOnly bool // loop/polygon: only point containment, so nothing else builds the index first
+	shareOpts    bool // index: every goroutine's EdgeQuery is built from one shared options value
 }
 
 func (pl *plan) describe() any {
-	return map[string]any{"object": pl.obj, "goroutines": pl.nG, "prebuilt": pl.prebuilt, "queries_per_goroutine": len(pl.queries[0]), "hold": pl.hold, "yields": pl.yields}
+	return map[string]any{"object": pl.obj, "goroutines": pl.nG, "prebuilt": pl.prebuilt, "contains_only": pl.containsOnly, "shared_edge_query_options": pl.shareOpts, "queries_per_goroutine": len(pl.queries[0]), "hold": pl.hold, "yields": pl.yields}
 }
 
 var points = []string{"index.beforeStatusLoad", "index.beforeLock", "index.beforeStatusStore", "index.beforeUnlock"}
@@ -210,6 +212,8 @@ func genPlan(r *rand.Rand) *plan {
 		}
 	}
 	nq := 6 + r.Intn(15)
+	pl.containsOnly = pl.obj != "index" && r.Intn(3) == 0
+	pl.shareOpts = pl.obj == "index" && r.Intn(2) == 0
 	for g := 0; g < pl.nG; g++ {
 		var qs []query
 		for i := 0; i < nq; i++ {
@@ -222,6 +226,9 @@ func genPlan(r *rand.Rand) *plan {
 				q.kind = []string{"contains", "contains", "containscell", "intersectscell", "relation"}[r.Intn(5)]
 			default:
 				q.kind = []string{"cpq", "cpq", "ceq", "distance", "findedges", "isfresh", "isdistanceless"}[r.Intn(7)]
+			}
+			if pl.containsOnly {
+				q.kind = "contains"
 			}
 			qs = append(qs, q)
 		}
@@ -249,6 +256,7 @@ type world struct {
 	poly, opoly *s2.Polygon
 	idx         *s2.ShapeIndex
 	shapes      []s2.Shape
+	opts        *s2.EdgeQueryOptions // shared by all query objects of this world when the plan says so
 }
 
 func (pl *plan) build() *world {
@@ -275,6 +283,9 @@ func (pl *plan) build() *world {
 			}
 			w.shapes = append(w.shapes, sh)
 			w.idx.Add(sh)
+		}
+		if pl.shareOpts {
+			w.opts = s2.NewClosestEdgeQueryOptions().MaxResults(3).IncludeInteriors(false)
 		}
 	}
 	return w
@@ -331,7 +342,11 @@ func (w *world) answer(q query, qo *qobjs) string {
 		return strings.Join(parts, " ")
 	case "distance", "findedges", "isdistanceless":
 		if qo.eq == nil {
-			qo.eq = s2.NewClosestEdgeQuery(w.idx, s2.NewClosestEdgeQueryOptions().MaxResults(1).IncludeInteriors(false))
+			o := w.opts
+			if o == nil {
+				o = s2.NewClosestEdgeQueryOptions().MaxResults(1).IncludeInteriors(false)
+			}
+			qo.eq = s2.NewClosestEdgeQuery(w.idx, o)
 		}
 		t := s2.NewMinDistanceToPointTarget(q.p)
 		switch q.kind {
